@@ -307,6 +307,9 @@ func (client *client) writeLoop() {
 			err = errors.New(fmt.Sprint(re))
 		}
 		client.setError(err)
+		// Nothing is written any more: close the connection, so that readLoop is not left blocked in a read
+		// on a socket the peer keeps open (failed CONNECT, handled DISCONNECT, protocol error of a v3 client).
+		_ = client.rwc.Close()
 	}()
 	for {
 		select {
